@@ -133,12 +133,30 @@ def check_layer_ab(pid, tier, seed, rep):
                       dict(package_dir=os.path.join(D["srcdir"], f["pkg"]), injector=f["inj"], scenario=f.get("scenario"), detail=f["detail"],
                            events=f.get("events"), how="rerun: python3 tools/check.py %s --replay <this file>" % pid),
                       "%s %s: %s" % (f["pkg"], f["inj"], f["detail"][:300]))
-    if bad and not viol:
+    # model-level search on the observed programs (verified checker + greedy explorer of coq/Check.v)
+    expl = {"C01": 1, "C03": 2}.get(pid)
+    nmodel = 0
+    for r in S["records"]:
+        if expl and r.get("explore_code") == expl and nmodel < 3:
+            nmodel += 1
+            what = ("a fault-free execution of the emitted program reaches a provider call that reads a variable nobody has written"
+                    if expl == 1 else "a fault-free execution of the emitted program deadlocks: a thread waits for a completion signal that is never sent")
+            rep.violation("model-run-%d" % r["id"], dict(package_dir=os.path.join(S["srcdir"], r["pkg"]), file=r["file"], injector=r["name"],
+                                                         observed_program=r.get("obs_prog"), declaration=S["case_text"].get(str(r["id"]), [None])[0],
+                                                         how="coq/Check.v: explore_code <observed_program> evaluates to %d; the greedy schedule is the replay" % expl,
+                                                         problems=r["problems"]),
+                          "%s %s: %s" % (r["pkg"], r["name"], what))
+    viol = viol or [1] * nmodel
+    unchecked = [r for r in S["records"] if r.get("checker_code")]
+    if (bad or unchecked) and not viol:
+        if not bad:
+            bad = [(unchecked[0], ["observed program fails the verified checker (code %d): Layer A's hypotheses are not established" % unchecked[0]["checker_code"]])]
         r, why = bad[0]
         rep.violation("corrS-%d" % r["id"], dict(correspondence="static correspondence S (coq/CorrS.v: xmismatches) no longer agrees with the generator",
                                                    theorem="Layer B (generator model) of Properties/%s.v no longer describes the code" % pid,
                                                    first_case=dict(pkg=r["pkg"], file=r["file"], injector=r["name"], why=why, model_input=S["case_text"].get(str(r["id"]))),
-                                                   disagreeing_cases=len(bad), dynamic_search="%d scenarios on %d injectors found no failing execution" % (D["scenarios"], D["injectors"])),
+                                                   disagreeing_cases=len(bad), observed_programs_failing_verified_checker=[(x["pkg"], x["name"], x["checker_code"]) for x in unchecked][:10],
+                                                   dynamic_search="%d scenarios on %d injectors found no failing execution" % (D["scenarios"], D["injectors"])),
                       "model/implementation disagreement on %d declaration(s), e.g. %s %s: %s" % (len(bad), r["pkg"], r["name"], why[0][:200]), True)
     cov.update(traces_validated_against_impl=D["scenarios"], scenario_kinds=D["kinds"], injectors_run=D["injectors"],
                input_distribution=shape_stats(S), trusted_base=TRUSTED,
@@ -147,7 +165,101 @@ def check_layer_ab(pid, tier, seed, rep):
     return cov
 
 
-CHECKS = {}
+def check_c09(pid, tier, seed, rep):
+    """Refusal/acceptance through the real CLI on planted defects and on valid declarations; model verdicts compared in Coq."""
+    import stage_s
+    cov = prove(pid, rep)
+    S = stage_s.stage(seed, tier)
+    bad = static_part(pid, rep, S, {"verdict"}, cov)
+    nviol = 0
+    kinds = {}
+    samples = []
+    for r in S["records"]:
+        if not r["id"]:
+            if r["problems"]:
+                nviol += 1
+                rep.violation("file-%s-%s" % (r["pkg"], r["file"]), dict(package_dir=os.path.join(S["srcdir"], r["pkg"]), problems=r["problems"]),
+                              "%s/%s: %s" % (r["pkg"], r["file"], r["problems"][0]))
+            continue
+        kinds[r["kind"]] = kinds.get(r["kind"], 0) + 1
+        probs = []
+        if r["kind"] == "valid":
+            probs = [p for p in r["problems"] if "unparsed" not in p]
+        else:
+            if r["rc"] == 0:
+                probs.append("declaration with a planted %s was accepted (exit 0)" % r["kind"])
+            else:
+                if r["err_class"] != r["kind"]:
+                    probs.append("planted %s refused with an unrelated diagnostic: %s" % (r["kind"], r["stderr"][-300:]))
+                elif not r["err_names_types"]:
+                    probs.append("diagnostic does not name the types involved (%s): %s" % (r["decl"]["expect"]["types"], r["stderr"][-300:]))
+            if not r.get("untouched", True):
+                probs.append("output file was created or modified although the declaration must be refused")
+            if len(samples) < 3:
+                samples.append(dict(kind=r["kind"], expect=r["decl"].get("expect"), exit=r["rc"], stderr=r["stderr"][-200:]))
+        if probs and nviol < 5:
+            nviol += 1
+            rep.violation("decl-%d" % r["id"], dict(package_dir=os.path.join(S["srcdir"], r["pkg"]), file=r["file"], injector=r["name"], kind=r["kind"],
+                                                    problems=probs, declaration=S["case_text"].get(str(r["id"]), [None])[0],
+                                                    how="cd <package_dir> && kessoku %s" % r["file"]),
+                          "%s %s (%s): %s" % (r["pkg"], r["name"], r["kind"], probs[0][:300]))
+    if bad and not nviol:
+        r, why = bad[0]
+        rep.violation("corrS-%d" % r["id"], dict(correspondence="accept/reject verdict of coq/CorrS.v:umodel differs from the generator",
+                                                   first_case=dict(pkg=r["pkg"], injector=r["name"], why=why, model_input=S["case_text"].get(str(r["id"])))),
+                      "model verdict differs from the generator on %d declaration(s)" % len(bad), True)
+    cov.update(input_distribution=dict(kinds=kinds, **shape_stats(S)), samples=samples or [dict(note="no malformed sample")], trusted_base=TRUSTED)
+    return cov
+
+
+def check_c10(pid, tier, seed, rep):
+    """Signature of every generated function vs the property's own definition (needed set) and vs the model signature."""
+    import stage_s, declgen
+    cov = prove(pid, rep)
+    S = stage_s.stage(seed, tier)
+    bad = static_part(pid, rep, S, {"sig"}, cov)
+    nviol = 0
+    samples = []
+    st = dict(with_ctx=0, ctx_from_provider_param=0, with_error=0, ret_is_arg=0, composite_args=0)
+    for r in S["records"]:
+        ob = r.get("obs")
+        if not r["id"] or r["kind"] != "valid" or not ob:
+            continue
+        d = r["decl"]
+        exp = declgen.expected_signature(d)
+        probs = []
+        if ob["name"] != exp["name"]:
+            probs.append("function name %s, declared %s" % (ob["name"], exp["name"]))
+        if sorted(ob["params"]) != exp["params"]:
+            probs.append("parameters %s, expected exactly the unsupplied needed types %s" % (ob["params"], exp["params"]))
+        if len(set(ob["params"])) != len(ob["params"]):
+            probs.append("a parameter type occurs twice: %s" % ob["params"])
+        if exp["ctx_first"] and (not ob["params"] or ob["params"][0] != declgen.CTX):
+            probs.append("a needed provider is Async but context.Context is not the first parameter: %s" % ob["params"])
+        if ob["results"] != exp["results"]:
+            probs.append("results %s, expected %s" % (ob["results"], exp["results"]))
+        st["with_ctx"] += declgen.CTX in ob["params"]
+        st["with_error"] += ob["reterr"]
+        st["ret_is_arg"] += d["ret"] in ob["params"]
+        st["composite_args"] += any(t[0] in "*[m" and "St" not in t for t in ob["params"])
+        if len(samples) < 3 and len(ob["params"]) > 1:
+            samples.append(dict(injector=ob["name"], params=ob["params"], results=ob["results"]))
+        if probs and nviol < 5:
+            nviol += 1
+            rep.violation("sig-%d" % r["id"], dict(package_dir=os.path.join(S["srcdir"], r["pkg"]), file=r["file"], injector=r["name"], problems=probs,
+                                                   observed=dict(params=ob["params"], results=ob["results"]), expected=exp,
+                                                   declaration=S["case_text"].get(str(r["id"]), [None])[0]),
+                          "%s %s: %s" % (r["pkg"], r["name"], probs[0][:300]))
+    if bad and not nviol:
+        r, why = bad[0]
+        rep.violation("corrS-%d" % r["id"], dict(correspondence="signature of coq/CorrS.v:usig differs from the generated function",
+                                                   first_case=dict(pkg=r["pkg"], injector=r["name"], why=why, model_input=S["case_text"].get(str(r["id"])))),
+                      "model signature differs from the generator on %d declaration(s)" % len(bad), True)
+    cov.update(input_distribution=dict(signature_shapes=st, **shape_stats(S)), samples=samples or [dict(note="none")], trusted_base=TRUSTED)
+    return cov
+
+
+CHECKS = {"C09": check_c09, "C10": check_c10}
 for _p in ("C01", "C02", "C03", "C05", "C06", "C07", "C08"):
     CHECKS[_p] = check_layer_ab
 
